@@ -36,9 +36,12 @@ CONFIGS = {
     # the intermediate x86-64 micro-architecture levels: the library selects code paths on __SSE4_1__, __AVX2__,
     # __F16C__ (and a change may add others: __BMI2__, __POPCNT__ ...); pinned = none, v2 = SSE4.2/POPCNT,
     # bmi = v2 + BMI1/BMI2/LZCNT/F16C/FMA/MOVBE without AVX2, native = everything this CPU has (AVX2 + AVX-512).
-    # An AVX2-only level (x86-64-v3) is NOT in the space: src/varintFOR.c uses _mm256_min/max_epu64 (AVX-512VL)
-    # under #if __AVX2__, so the unchanged library does not compile there (see DESIGN.md section 8).
+    # The AVX2-only level (x86-64-v3) is an OPTIONAL member of the space: src/varintFOR.c uses _mm256_min/max_epu64
+    # (AVX-512VL) under #if __AVX2__, so the unchanged library does not compile there (see DESIGN.md section 8).
     "v2": dict(cc="cc", cflags=["-std=gnu11", "-O2", "-g", "-DNDEBUG", "-fPIC", "-march=x86-64-v2"]),
+    # AVX2 without AVX-512VL: the unchanged tree does not compile here (varintFOR.c uses _mm256_min/max_epu64 under
+    # __AVX2__); optional = explored whenever the tree at hand compiles in it, skipped (and reported as skipped) otherwise
+    "v3": dict(cc="cc", cflags=["-std=gnu11", "-O2", "-g", "-DNDEBUG", "-fPIC", "-march=x86-64-v3"], optional=True),
     "bmi": dict(cc="cc", cflags=["-std=gnu11", "-O2", "-g", "-DNDEBUG", "-fPIC", "-march=x86-64-v2", "-mbmi", "-mbmi2",
                                  "-mlzcnt", "-mf16c", "-mfma", "-mmovbe"]),
     # the two documented compile-time switches of the split-full headers (grow-shrink-grow for a 255-value range)
@@ -115,7 +118,9 @@ scalar("C01", SCALAR_RULE,
        "E-enum: every value of the alphabet is encoded by every entry point into a guard-page buffer at every "
        "alignment, decoded by every reader, and the four lengths compared; all bytes outside the encoding are "
        "checked unchanged under two backgrounds")
-scalar("C04", SCALAR_RULE + "; oracle = independently written reference encoders, adjacent-pair length monotonicity",
+scalar("C04", SCALAR_RULE + "; oracle = independently written reference encoders, adjacent-pair length monotonicity; bit writer / "
+       "reader: 72 start positions x 64 widths x 8 values, interleaved writer / reader, reserve-then-fill (16 positions x 64 field "
+       "widths x 5 tails x 4 values), far positions 2^31..2^42",
        "E-enum with reference-encoder oracle: bytes equal the reference byte for byte, library decodes reference "
        "bytes, len(v) <= len(v+1) on every adjacent pair of the exhaustive prefix and boundary windows")
 scalar("C05", "all adjacent pairs (v,v+1) of the exhaustive prefix and boundary windows (decides all pairs of the "
@@ -175,15 +180,15 @@ ARRAY_RULE = ("every array of the corpus A (S1: all arrays of length 1-3 over a 
               "value pairs whose difference is a convergent denominator of K / 2^64 for every odd 64-bit immediate K of the "
               "library's machine code) through every codec entry point on the real code, each typed input at 2 (thorough: 3) start "
               "alignments (flush against the guard page, 1 and 3 elements earlier), in each build configuration "
-              "(pinned, -march=native; thorough also x86-64-v2, -v3, -O0 with asserts, ASan); a class is a distinct (codec, header-length class, width class, exception / "
+              "(pinned, -march=native, x86-64-v3 whenever the library compiles there - the unchanged tree does not, the evidence says so under configs_skipped; thorough also x86-64-v2, BMI2-without-AVX2, -O3, -Os, strict C11, -O0 with asserts, ASan); a class is a distinct (codec, header-length class, width class, exception / "
               "block structure) combination reached")
 
 
 def arrays(prop, expl, rule_extra="", dl_quick=150, dl_thorough=7200, configs=None):
     CHECKS[prop] = dict(
         name="arrays", harness=["checks/arrays.c", "engine/vmalloc.c"], libs=LIBS_ALL, wrap_malloc=True, constant_alphabet=True,
-        configs=configs or {"quick": ["pinned", "native"], "thorough": ["pinned", "native", "asan", "debug", "v2", "bmi", "o3", "os", "c11"]},
-        shards={"pinned": 16, "native": 16, "asan": 16, "debug": 16, "v2": 16, "bmi": 16, "o3": 16, "os": 16},
+        configs=configs or {"quick": ["pinned", "native", "v3"], "thorough": ["pinned", "native", "asan", "debug", "v2", "v3", "bmi", "o3", "os", "c11"]},
+        shards={"pinned": 16, "native": 16, "asan": 16, "debug": 16, "v2": 16, "v3": 16, "bmi": 16, "o3": 16, "os": 16},
         deadline={"quick": dl_quick, "thorough": dl_thorough},
         tier_env={"thorough": {"pinned": {"VERIF_GIANT": "1"}, "native": {"VERIF_GIANT": "1"}}},
         rule=ARRAY_RULE + rule_extra, explanation=expl,
@@ -194,7 +199,8 @@ def arrays(prop, expl, rule_extra="", dl_quick=150, dl_thorough=7200, configs=No
 
 arrays("C02", "E-enum: encode, copy the reported bytes into an exact-size guard-page buffer, decode with the original count, "
               "compare with the input; every random-access / block reader compared with the full decode at every index")
-arrays("C03", "E-enum: the encoder's destination is a guard-page buffer of exactly the advertised size, so a write one byte "
+arrays("C03", rule_extra="; dictionary objects: fresh, rebuilt from another index-width class, rebuilt from a same-cardinality twin "
+       "(narrower / wider entries) that was queried in between", expl="E-enum: the encoder's destination is a guard-page buffer of exactly the advertised size, so a write one byte "
               "past it faults; returned length <= advertised (== where documented exact)")
 arrays("C13", configs={"quick": ["pinned"], "thorough": ["pinned", "native", "asan", "v2", "bmi"]}, expl="E-enum over (valid encoding, capacity c in 0..n, and where the encoding carries its count also 13 capacities above n up to 2^40) x (no fault, k-th allocation of the decode failing for every k): the output buffer holds exactly c elements before a "
               "PROT_NONE page; library-internal blocks carry redzones; result must be 0 or a correct prefix",
@@ -237,7 +243,7 @@ CHECKS["C14"] = dict(
     libs=LIBS_ALL,
     configs={"quick": ["pinned", "asan"], "thorough": ["pinned", "asan", "debug", "native", "bmi", "os", "c11"]},
     shards={"pinned": 16, "asan": 16, "debug": 16},
-    deadline={"quick": 150, "thorough": 1800},
+    deadline={"quick": 150, "thorough": 5400},
     rule="byte-string alphabet B: all strings of length 0-2 over all 256 byte values, all strings of length 3-4 (quick) / "
          "3-6 (thorough) over a 12-byte alphabet {00,01,02,7f,80,f0,f1,f8,f9,fa,fe,ff}; bounded deviations from valid "
          "encodings of the corpus: every truncation length and every single-byte substitution (two substitutions in the "
@@ -259,12 +265,13 @@ CHECKS["C09"] = dict(
     shards={"pinned": 16, "debug": 16, "asan": 16},
     tier_env={"thorough": {"pinned": {"VERIF_GIANT": "1"}}},
     deadline={"quick": 150, "thorough": 1500},
-    rule="120 instantiations generated from src/varintPacked.h (every width 1-32 x slot type 8/16/32/64 with width <= slot + "
+    rule="153 instantiations generated from src/varintPacked.h (every width 1-32 x slot type 8/16/32/64 with width <= slot + "
          "gcd(width, slot), the compact flavour where its automatic slot type satisfies the same rule, and the six parameter "
          "sets used in the tree); isolation: every element index of an array covering three periods of lcm(width, slot) x value "
          "alphabet (all values for width <= 8 quick / 12 thorough, else boundary + walking-bit values) x 4 backgrounds; sorted "
          "semantics: BFS to closure over sorted multisets of <= 7 elements on a 5-value alphabet; class = (width, slot, flavour, "
-         "start bit in slot, one-/two-slot) and one class per instance for the sorted closure; plus 12 narrow-length-type "
+         "start bit in slot, one-/two-slot) and one class per instance for the sorted closure; plus 12 instances whose value type is wider than the width needs "
+         "(PACK_STORAGE_VALUE_TYPE override at widths 8 / 16 / 32 and others), 21 narrow-length-type "
          "instances (PACK_MAX_ELEMENTS <= 255 / 65535), far elements: every index where the index, the bit offset, the byte "
          "offset or the slot index crosses 2^8, 2^15, 2^16, 2^24, 2^31, 2^32 (+-1) and the top of the index range, in a "
          "PROT_NONE reservation of 16 GiB where only the window pages are accessible (instances generated narrow-first and "
